@@ -37,10 +37,34 @@ class SimDB:
         cands.sort()
         return (cands[0][1], cands[0][2])
 
-    def sim(self, copies, fname, rl=100, depth=20, **kw):
+    def truth_edits(self, haps):
+        """For generated databases: replace the loader-derived variants of unfused catalogue alleles by
+        edits computed from the database's written notation through the generator's own maps."""
+        if self.spec is None:
+            return haps
+        from ..ref import catalogue
+
+        if not hasattr(self, "_model"):
+            self._model = catalogue.YamlModel(dbgen.to_yaml(self.spec), self.genome)
+        y = self.spec["yml"]["alleles"]
+        for h in haps:
+            al = h.get("allele")
+            if not al or al[1] is None or "#" in al[1]:
+                continue
+            key = f"{self.spec['yml']['name']}*{al[1]}"
+            if key not in y:
+                continue
+            written = [(m[0], m[1]) for m in y[key]["mutations"] if isinstance(m[0], int)]
+            if all(self._model.mappable(p, o) for p, o in written) and len(written) == len(h["variants"]):
+                h["edits"] = reads.edits_from_written(self._model, written)
+        return haps
+
+    def sim(self, copies, fname, rl=100, depth=20, truth=False, **kw):
         """Write a BAM for the given copies [(major, minor[, added, missing])]."""
         g = self.gene
         haps = reads.haplotypes_for(g, copies)
+        if truth:
+            haps = self.truth_edits(haps)
         rds = reads.simulate(g, haps, rl=rl, depth=depth, ref=self.ref, neutral=self.neutral, **kw)
         path = os.path.join(util.scratch_dir(), fname)
         reads.write_bam(path, g.chr, self.contig_len, rds)
